@@ -147,6 +147,9 @@ func fixedRefs(node gen.J) map[string]bool {
 
 var globalsRe = regexp.MustCompile(`(?i)\bglobals\.([a-z0-9_]+)`)
 
+// a contact field reference in a template: fields.K (also under contact./parent./child.), not followed by a further lookup
+var fieldsRe = regexp.MustCompile(`(?i)(?:^|[^.\w])(?:(?:parent\.|child\.)?(?:contact\.)?)fields\.([a-z0-9_]+)(?:[^\w.]|$)`)
+
 func (C20) AfterCall(w *World, c *Call) {
 	if !callOK(c) {
 		return
@@ -191,25 +194,53 @@ func (C20) AfterCall(w *World, c *Call) {
 		}
 	}
 
-	// visited nodes: @globals references in their templates
+	// visited nodes: @globals and @fields references in their templates, base and translated
+	// (a run in that language evaluates the translation; inspection must have parsed it too)
 	for _, r := range s.Runs() {
 		rb := before[string(r.UUID())]
 		in := get(r)
 		if in == nil {
 			continue
 		}
+		def := w.defOf(c, r.Flow().UUID())
 		for i := rb.Steps; i < len(r.Path()); i++ {
 			node := in.nodes[string(r.Path()[i].NodeUUID())]
 			if node == nil {
 				continue
 			}
 			nb, _ := json.Marshal(node)
-			for _, m := range globalsRe.FindAllStringSubmatch(string(nb), -1) {
-				if !in.deps["global:"+strings.ToLower(m[1])] {
-					v("dependencies", "global-not-listed", fmt.Sprintf("node %s of %s references @globals.%s but the inspection lists no such dependency", r.Path()[i].NodeUUID(), r.Flow().Name(), m[1]))
-					return
+			texts := []string{string(nb)}
+			if def != nil {
+				for _, item := range nodeItemUUIDs(node) {
+					for _, lang := range gen.SortedKeys(def.Loc) {
+						ll, _ := def.Loc[lang].(gen.J)
+						if it, ok := ll[item]; ok {
+							tb, _ := json.Marshal(it)
+							texts = append(texts, string(tb))
+						}
+					}
 				}
-				w.probe("c20_global_checked")
+			}
+			for ti, text := range texts {
+				where := "a template"
+				if ti > 0 {
+					where = "a translation"
+				}
+				for _, m := range globalsRe.FindAllStringSubmatch(text, -1) {
+					if !in.deps["global:"+strings.ToLower(m[1])] {
+						v("dependencies", "global-not-listed/"+strings.Fields(where)[1], fmt.Sprintf("%s of node %s of %s references @globals.%s but the inspection lists no such dependency", where, r.Path()[i].NodeUUID(), r.Flow().Name(), m[1]))
+						return
+					}
+					w.probe("c20_global_checked")
+				}
+				// JSON-escaped text: quotes arrive as \" which is not a word character, fine for the pattern
+				for _, m := range fieldsRe.FindAllStringSubmatch(text, -1) {
+					if !in.deps["field:"+strings.ToLower(m[1])] {
+						v("dependencies", "field-not-listed/"+strings.Fields(where)[1], fmt.Sprintf("%s of node %s of %s references the contact field %s but the inspection lists no such dependency", where, r.Path()[i].NodeUUID(), r.Flow().Name(), m[1]))
+						return
+					}
+					w.probe("c20_template_field_checked")
+				}
 			}
 		}
 	}
@@ -360,4 +391,29 @@ func nodeKind(node gen.J, e gen.J) string {
 		return cands[0]
 	}
 	return "unknown"
+}
+
+// nodeItemUUIDs lists the localizable items of a node: its actions, router cases and categories.
+func nodeItemUUIDs(node gen.J) []string {
+	var out []string
+	if actions, _ := node["actions"].([]any); actions != nil {
+		for _, a := range actions {
+			if aj, ok := a.(gen.J); ok {
+				if u, _ := aj["uuid"].(string); u != "" {
+					out = append(out, u)
+				}
+			}
+		}
+	}
+	for _, c := range casesOf(node) {
+		if u, _ := c["uuid"].(string); u != "" {
+			out = append(out, u)
+		}
+	}
+	for _, c := range categoriesOf(node) {
+		if u, _ := c["uuid"].(string); u != "" {
+			out = append(out, u)
+		}
+	}
+	return out
 }
